@@ -44,12 +44,14 @@ CHECKS = {
          "one fault per image; damage behind a valid CRC (not producible by a disk) is out of scope; mutations per database are capped (uniform subsample of the enumeration) in the quick tier", "deterministic simulation: structure-aware enumeration of stored-byte damage"),
  "C15": ("exploration", "in-family part only: the real writer over the real buffered file over the simulated file system appends seeded record sequences (lengths biased to 0, 1, block-size edges +-8, up to 1 MiB) in one or more sessions (log reuse appends at the current size); bytes on disk must equal an independent encoder's output; the real reader reads back fault-free (also under short reads/EINTR), under cuts at every byte of the tail, around every record boundary and block boundary (exactly the records wholly before the cut, no report), and under bit/byte/multi-byte/sector damage (nothing invented, records before the damage and in later intact blocks returned, every drop reported unless the image is a legal torn tail, and agreement with an independent decoder). The exhaustive length x offset sweep and the CRC alignment sweep are pure-input properties and are not claimed.", "7 C15",
          "a zero header followed only by zeros to the end of its block is treated as a legal (preallocated/zero-extended) tail: no report required there", "deterministic simulation: real writer/reader over the simulated file with torn tails and stored-byte damage, judged by an independent codec"),
+ "C19": ("exploration", "seeded histories build arbitrary layouts (flushes, per-level manual compactions that rewrite old data into higher-numbered files, tombstones, several versions per key across files, a live log), then CURRENT and/or MANIFEST are removed, truncated or bit-damaged (or left intact); ldb_repair and ldb_open run on the simulated file system; the newest version per user key is computed from the surviving table and log files by independent decoders and compared with get of every key and with forward/backward scans; follow-up writes must take precedence, persist across a reopen, be logged with sequence numbers above every surviving one, and new files must be numbered above everything on disk. Custom comparators included.", "7 C19",
+         "one open known finding (get returns an older version after repair while the iterator is right) is listed in known_findings.json; any other deviation is a violation", "deterministic simulation: metadata-loss faults + repair judged by independent decoders"),
 }
 NOT_APPLICABLE = [
  ("C16", "pure function of (entries, options): no schedule, clock, crash or I/O fault to search; tables produced by simulated histories are decoded independently as part of C14/C11/C19 but C16 itself is not claimed"),
  ("C18", "totality/memory safety on arbitrary bytes is quantified over inputs only (fuzzing, not fault/schedule search); disk-producible damage is exercised under ASan+UBSan by C11 but C18 is not claimed"),
 ]
-WIP = ["C19", "C20"]
+WIP = ["C20"]
 
 def main():
     checks = []
